@@ -1,6 +1,8 @@
 import Driver.C01
 import Driver.TabD
 import Driver.VisD
+import Driver.WebD
+import IGVerif.Gen.Facts
 open Drv Lean
 
 def genFor (prop tier : String) (seed : Nat) : Except String (Array Case) :=
@@ -10,6 +12,9 @@ def genFor (prop tier : String) (seed : Nat) : Except String (Array Case) :=
   | "C03" => pure (genC03Cases tier seed)
   | "C04" => pure (genTabCases tier seed "c04")
   | "C08" => pure (genVisCases tier seed "c08")
+  | "C13" => pure (genC13Cases tier seed)
+  | "C14" => pure (genC14Cases (!IGVerif.Gen.converterLockCalls.isEmpty) tier seed)
+  | "C15" => pure (genC15Cases tier seed)
   | _ => throw s!"no generator for {prop}"
 
 def judgeFor (prop : String) : Except String (Case → ObsLine → Verdict) :=
@@ -19,6 +24,9 @@ def judgeFor (prop : String) : Except String (Case → ObsLine → Verdict) :=
   | "C03" => pure judgeParse
   | "C04" => pure (judgeTab false)
   | "C08" => pure (judgeVis true)
+  | "C13" => pure judgeC13
+  | "C14" => pure judgeC14
+  | "C15" => pure judgeC15
   | _ => throw s!"no judge for {prop}"
 
 def main (args : List String) : IO UInt32 := do
